@@ -335,3 +335,25 @@ Definition rets_ok (c : config) (s : state) (t : nat) : bool :=
 Definition state_ok (c : config) (s : state) (threads fields : list nat) : bool :=
   forallb (rets_ok c s) threads &&
   forallb (fun f => Nat.leb (wins s f) 1) fields.
+
+(* ---------------------------------------------------------------------------
+   Finding FG1: non-deterministic Marshal is two passes over the message
+   (internal/impl/encode.go).  For a present lazy field the size pass counts the
+   retained raw bytes when the pointer is nil (lazy.SizeField) and the encoded
+   size of the decoded value otherwise; the append pass takes the same decision
+   again (lazy.AppendField / re-encoding).  A reader may publish the field
+   between the passes (nil -> non-nil is the only change readers make).  The
+   enclosing submessage's length prefix was computed by the size pass; the code
+   compares it with the appended length and fails on a difference. *)
+Definition pass_len (raw_len enc_len : nat) (saw_nil : bool) : nat :=
+  if saw_nil then raw_len else enc_len.
+
+(* nil_at_append = true requires nil_at_size = true (a published pointer stays published) *)
+Definition passes_possible (nil_at_size nil_at_append : bool) : bool :=
+  implb nil_at_append nil_at_size.
+
+Definition marshal_size_check (raw_len enc_len : nat) (nil_at_size nil_at_append : bool) : bool :=
+  Nat.eqb (pass_len raw_len enc_len nil_at_size) (pass_len raw_len enc_len nil_at_append).
+
+(* the recogniser of FG1: the raw encoding of the lazy field is not the length of its re-encoding *)
+Definition excl_FG1 (raw_len enc_len : nat) : bool := negb (Nat.eqb raw_len enc_len).
